@@ -96,7 +96,23 @@ func c05R1(c *Ctx, rule string) {
 				engine.PredBool("has", DescIs("recv.matchIndexes[p1]#1")),
 				engine.PredRel("larger", "p2", "recv.matchIndexes[p1]#0", engine.GT),
 				engine.Event("locked", c.P.IsCallTo(engine.Is("(*sync.Mutex).Lock"))),
+				// the lookup that the guard tests and the update happen in ONE critical
+				// section: an Unlock in between lets setConfiguration swap the table
+				engine.Event("looked", func(in ssa.Instruction) bool {
+					lk, ok := in.(*ssa.Lookup)
+					return ok && lk.CommaOk && c.P.D(lk.X) == "recv.matchIndexes"
+				}, "released"),
+				engine.Event("released", func(in ssa.Instruction) bool {
+					if _, isDefer := in.(*ssa.Defer); isDefer {
+						return false
+					}
+					cc := engine.CallCommonOf(in)
+					return cc != nil && (c.P.CalleeName(cc) == "(*sync.Mutex).Unlock" || c.P.CalleeName(cc) == "(*sync.RWMutex).Unlock" || c.P.CalleeName(cc) == "(*sync.RWMutex).RUnlock")
+				}),
 			}})
+			c.RequireAt(r, rule, "match:check-and-update-in-one-critical-section", u.in, "the slot lookup the guard tests and the update are not separated by an Unlock", func(v engine.View) bool {
+				return v.Seen("looked") && !v.Seen("released")
+			})
 			ok := c.P.D(u.in.Key) == "p1" && c.P.D(u.in.Value) == "p2"
 			c.RequireAt(r, rule, "match:raise-existing-slot-only", u.in, "slot exists (comma-ok) ∧ new match > previous, under the lock; stores matchIndexes[server] = matchIndex", func(v engine.View) bool {
 				return ok && v.T("has") && v.T("larger") && v.Seen("locked")
